@@ -757,7 +757,9 @@ func contextAfterText(c context, s []byte) (context, int) {
 		ret.scriptType = strings.ToLower(string(s[:i]))
 	}
 	// Save the link element's rel attribute value if we are parsing it for the first time.
-	if c.state == stateAttr && c.element.name == "link" && c.attr.name == "rel" {
+	// Browsers honour the first of several attributes with the same name: a later rel must not
+	// replace the one already seen.
+	if c.state == stateAttr && c.element.name == "link" && c.attr.name == "rel" && c.linkRel == "" {
 		ret.linkRel = " " + strings.Join(strings.Fields(strings.TrimSpace(strings.ToLower(string(s[:i])))), " ") + " "
 	}
 	if c.delim != delimSpaceOrTagEnd {
